@@ -237,6 +237,23 @@ pub fn run(args: &[String]) {
                     emit(id, &s, &ce, None);
                     id += 1;
                 }
+                // the key with one letter replaced by a non-ASCII character whose Unicode case mapping lands on that ASCII letter
+                // (KELVIN SIGN -> k, LONG S -> S, dotless i -> I, I with dot -> i + combining dot) or by a look-alike (fullwidth, Cyrillic,
+                // sharp s, fi ligature): none of these is a table symbol, whatever a case-insensitive or normalising lookup would make of them
+                let twins: [(char, &[char]); 8] = [('K', &['\u{212A}']), ('k', &['\u{212A}']), ('S', &['\u{017F}', '\u{1E9E}']), ('s', &['\u{017F}', '\u{00DF}']),
+                                                   ('I', &['\u{0131}', '\u{0130}']), ('i', &['\u{0131}', '\u{0130}', '\u{FB01}']),
+                                                   ('H', &['\u{FF28}', '\u{041D}']), ('C', &['\u{FF23}', '\u{0421}'])];
+                let chars: Vec<char> = k.chars().collect();
+                for (pos, ch) in chars.iter().enumerate() {
+                    for (a, reps) in twins.iter() {
+                        if ch == a {
+                            for r in reps.iter() {
+                                let t: String = chars.iter().enumerate().map(|(q, c)| if q == pos { *r } else { *c }).collect();
+                                for s in [t.clone(), format!("({})3", t), format!("H2O{}[247]2", t)] { emit(id, &s, &ce, None); id += 1; }
+                            }
+                        }
+                    }
+                }
             }
         }
         "rand" => {
